@@ -105,11 +105,14 @@ fn stream_key(sid: StreamId, resp: bool) -> u64 {
     (sid.id() << 3) | (dir_bit << 2) | (role_bit << 1) | resp as u64
 }
 
-async fn write_stream(ctx: &Ctx, name: &str, mut w: StreamWriter, key: u64, size: u32, chunk: u32, reset_after: Option<u32>) -> Result<(), String> {
+async fn write_stream(ctx: &Ctx, name: &str, mut w: StreamWriter, key: u64, size: u32, chunk: u32, reset_after: Option<u32>, gap_ms: u32) -> Result<(), String> {
     let seed = ctx.case.seed;
     let mut pos: u64 = 0;
     let size = size as u64;
     while pos < size {
+        if gap_ms > 0 && pos > 0 {
+            tokio::time::sleep(Duration::from_millis(gap_ms as u64)).await;
+        }
         if let Some(r) = reset_after {
             if pos >= r as u64 {
                 w.cancel(7);
@@ -218,7 +221,7 @@ pub async fn run_side(ctx: Arc<Ctx>, side: Side, conn: Connection) {
                             ctx.start_actor(&n2);
                             let sp = spec.clone();
                             subs.push(tokio::spawn(async move {
-                                let res = write_stream(&c1, &n1, w, stream_key(sid, false), sp.size, sp.chunk, sp.reset_after).await;
+                                let res = write_stream(&c1, &n1, w, stream_key(sid, false), sp.size, sp.chunk, sp.reset_after, sp.gap_ms).await;
                                 c1.finish_actor(&n1, res.is_ok() || sp.stop_after.is_some(), res.err().unwrap_or_default());
                             }));
                             let sp = spec.clone();
@@ -245,7 +248,7 @@ pub async fn run_side(ctx: Arc<Ctx>, side: Side, conn: Connection) {
                             ctx.start_actor(&n1);
                             let sp = spec.clone();
                             subs.push(tokio::spawn(async move {
-                                let res = write_stream(&c1, &n1, w, stream_key(sid, false), sp.size, sp.chunk, sp.reset_after).await;
+                                let res = write_stream(&c1, &n1, w, stream_key(sid, false), sp.size, sp.chunk, sp.reset_after, sp.gap_ms).await;
                                 c1.finish_actor(&n1, res.is_ok() || sp.stop_after.is_some(), res.err().unwrap_or_default());
                             }));
                         }
@@ -292,7 +295,7 @@ pub async fn run_side(ctx: Arc<Ctx>, side: Side, conn: Connection) {
                         }));
                         let sp = spec.clone();
                         subs.push(tokio::spawn(async move {
-                            let res = write_stream(&c2, &n2, w, stream_key(sid, true), sp.resp_size, sp.resp_chunk, None).await;
+                            let res = write_stream(&c2, &n2, w, stream_key(sid, true), sp.resp_size, sp.resp_chunk, None, sp.gap_ms).await;
                             c2.finish_actor(&n2, res.is_ok(), res.err().unwrap_or_default());
                         }));
                     }
@@ -919,7 +922,7 @@ pub async fn drive(case: &Case) -> Outcome {
                 let rounds = crate::window_rounds(&case.streams, &case.client, &case.server);
                 let total: u64 = case.streams.iter().map(|s| (s.size + s.resp_size) as u64).sum();
                 let tx_ms = if case.net.bandwidth > 0 { 4 * total / case.net.bandwidth as u64 } else { 0 };
-                let budget = 60_000 + (20 + 4 * rounds) * (rtt_ms + 2 * case.net.jitter_ms as u64 + 25) + tx_ms;
+                let budget = 60_000 + (20 + 4 * rounds) * (rtt_ms + 2 * case.net.jitter_ms as u64 + 25) + tx_ms + crate::paced_ms(&case.streams);
                 if completed_at > last_fault + budget {
                     out.violate("liveness-transfer", "late", format!("workload completed at {completed_at} ms, more than {budget} ms after the last fault ({last_fault} ms)"), completed_at);
                 }
